@@ -35,6 +35,19 @@ def parserRecord (r : Record) : List Verdict × List String :=
     let m := if c = 's' ∨ c = 'd' ∨ c = 'q' then "a" else String.singleton c
     ([check "c16.random" m (r.get "impl")], [s!"parser.random={m}"])
   | none =>
+    if (r.get? "xonly").isSome then
+      -- directed mutants given explicitly (forced check sums) and selected truncations of a long stream
+      let pcm := intList (r.get "pcm")
+      let fmt := (r.nat "rate", r.nat "ch", r.nat "bps")
+      let xm := if r.get "xm" = "-" then [] else (r.get "xm").splitOn "|"
+      let mo := String.ofList (xm.map fun h => Repo.outcomeCharMode debug (unhex h) pcm fmt)
+      let base := if r.get "base" = "-" then [] else unhex (r.get "base")
+      let cuts := if r.get "xcuts" = "-" then [] else ((r.get "xcuts").splitOn ",").map fun t => t.toNat?.getD 0
+      let co := String.ofList (cuts.map fun n => Repo.outcomeCharMode debug (base.take n) pcm fmt)
+      ([check "c16.forced" "none" (firstDiff mo (if r.get "impl_xm" = "-" then "" else r.get "impl_xm")),
+        check "c16.xcuts" "none" (firstDiff co (if r.get "impl_xcuts" = "-" then "" else r.get "impl_xcuts"))],
+       [s!"parser.directed={xm.length + cuts.length}"])
+    else
     let base := unhex (r.get "base")
     let arr := base.toArray
     let pcm := intList (r.get "pcm")
